@@ -41,7 +41,7 @@ CFG = gdoc.Cfg(words=st.sampled_from(HOSTILE + ['plain', 'words', 'here']), inli
 
 def strategy(tier):
     return st.fixed_dictionaries({'doc': gdoc.document(CFG), 'fmt': st.sampled_from(['epub', 'odt', 'bundlezip', 'itmz']), 'usedir': st.sampled_from([True, True, False]),
-                                  'cli': st.integers(0, 9), 'ext': st.sampled_from([wk.EXT_DEFAULT, wk.EXT_DEFAULT & ~EXT['SMART'], wk.EXT_DEFAULT | EXT['NO_LABELS'], wk.EXT_DEFAULT | EXT['OBFUSCATE'], wk.EXT_COMPAT, wk.EXT_DEFAULT | EXT['CRITIC_ACCEPT']])})
+                                  'cli': st.integers(0, 9), 'ext': st.sampled_from([wk.EXT_DEFAULT, wk.EXT_DEFAULT & ~EXT['SMART'], wk.EXT_DEFAULT | EXT['NO_LABELS'], wk.EXT_DEFAULT | EXT['OBFUSCATE'], wk.EXT_COMPAT, wk.EXT_DEFAULT | EXT['CRITIC_ACCEPT'], wk.EXT_DEFAULT | EXT['RANDOM_FOOT'] | EXT['RANDOM_LABELS'], wk.EXT_DEFAULT | EXT['RANDOM_FOOT']])})
 
 
 UU = r'[0-9a-fA-F]{8}-[0-9a-fA-F]{4}-[0-9a-fA-F]{4}-[0-9a-fA-F]{4}-[0-9a-fA-F]{12}'
@@ -81,6 +81,11 @@ def check(case, ctx):
     if '\x00' in src:
         return
     fmt, ext = case['fmt'], case['ext']
+    if ext & (EXT['RANDOM_FOOT'] | EXT['RANDOM_LABELS']) and '[^fnz]' not in src:
+        # declared-random anchors are drawn while the document is written; the names of the stored assets are drawn too: a note used twice (and a
+        # heading linked twice) with a new picture after each use must still give every picture a name of its own
+        src += '\n\n# Zed Heading\n\nnote[^fnz] ![one](pic.png) again[^fnz] ![two](img/pic2.png) see [Zed Heading][] ![three](missing.png) and [Zed Heading][] ![four](img/../pic.png)\n\n[^fnz]: z note\n'
+        ctx.cls('reused_note_with_pictures_under_random_anchors')
     directory = fix if case['usedir'] else ''
     fail = lambda sig, msg: Violation(sig, '%s\nfmt=%s dir=%r\nsource=%r' % (msg, fmt, directory, src))
     # (a conversion that draws from the e-mail obfuscation sequence comes first, so that what the package writer does with that sequence
@@ -129,6 +134,11 @@ def check(case, ctx):
         plain = strip_toc(w.convert(src, 'html', ext | EXT['COMPLETE']).text)
         a, b, mapping = align(main, plain, 'assets/', urls, fail)
         squeeze = lambda t_: re.sub(r'\n+', '\n', t_).strip('\n')      # omitting the TOC block changes the blank-line padding around it
+        if ext & (EXT['RANDOM_FOOT'] | EXT['RANDOM_LABELS']):
+            # declared-random anchors differ between two conversions: compared under a mask (the asset table is still compared exactly)
+            rmask = lambda t_: re.sub(r'((?:id|href)="(?:main\.xhtml)?#?)\d+(")', r'\1N\2', re.sub(r'((?:fn|fnref|cn|cnref|gn|gnref):)\d+', r'\1N', t_))
+            a, b = rmask(a), rmask(b)
+            ctx.cls('random_anchors_masked')
         if squeeze(a) != squeeze(b):
             raise fail('epub:main-document-differs', 'main.xhtml != complete HTML\nepub=%r\nhtml=%r' % (a[-900:], b[-900:]))
         for url, uuid in mapping.items():
@@ -158,6 +168,10 @@ def check(case, ctx):
         if bc is None or bf is None:
             raise fail('odt:no-office-text', '')
         a, b, mapping = align(bc, bf, 'Pictures/', urls, fail)
+        if ext & (EXT['RANDOM_FOOT'] | EXT['RANDOM_LABELS']):
+            rmask = lambda t_: re.sub(r'((?:text:name|text:ref-name|xlink:href|text:id)="#?)\d+(")', r'\1N\2', re.sub(r'((?:fn|fnref|cn|cnref|gn|gnref):)\d+', r'\1N', t_))
+            a, b = rmask(a), rmask(b)
+            ctx.cls('random_anchors_masked')
         if a != b:
             raise fail('odt:main-document-differs', 'content.xml body != FODT body\nodt=%r\nfodt=%r' % (a[-700:], b[-700:]))
         for url, uuid in mapping.items():
